@@ -235,7 +235,9 @@ def compile_pattern(p: str, flag: str, ver: str, xsd_mode: bool):
     fl = RE_FLAGS[flag]
 
     def go():
-        if xsd_mode:
+        if xsd_mode == 'noanchors':       # XPath syntax (back-references, lazy quantifiers) but implicit anchoring
+            py = translate_pattern(p, fl, ver, True, True, False)
+        elif xsd_mode:
             py = translate_pattern(p, fl, ver, False, False, False)
         else:
             py = translate_pattern(p, fl, ver)
@@ -631,6 +633,17 @@ def ast_worker(job):
                 bag.add('evaluations', len(subjects))
                 if o != full:
                     report(r, 'xsd', 'full', p, full, o)
+        # --- anchors=False with back-references kept: the numbers of the groups must not move
+        if (types & {'dup', 'refd'}) and not (types & {'bol', 'eol'}):
+            p = render(r, '(?:', sep)
+            c = compile_pattern(p, flag, ver, 'noanchors')
+            if isinstance(c, tuple):
+                report(r, 'xpath-noanchors', 'full', p, full, c)
+            else:
+                o = frozenset(s for s in subjects if c.search(texts[s]) is not None)
+                bag.add('evaluations', len(subjects))
+                if o != full:
+                    report(r, 'xpath-noanchors', 'full', p, full, o)
         # --- fn:matches through the XPath parsers
         p = render(r, '(?:', sep)
         h = zlib.crc32(p.encode())
@@ -791,7 +804,10 @@ def fns_worker(job):
         p = render(r, '(?:')
         text = subj(s)
         h = zlib.crc32((p + '|' + text).encode())
-        base = dict(kind='fns', flag=flag, has_group=bool(types & {'grp', 'dup'}), has_anchor=bool(types & {'bol', 'eol'}))
+        base = dict(kind='fns', flag=flag, has_group=bool(types & {'grp', 'dup'}), has_anchor=bool(types & {'bol', 'eol'}),
+                    # a capturing group that contains an optional capturing group
+                    opt_group_in_group=any(x['t'] in ('grp', 'dup') and any(
+                        y['t'] in ('opt', 'star', 'rep') and y['r']['t'] in ('grp', 'dup') for y in walk(x['r'])) for x in walk(r)))
         case0 = dict(kind='fns', pattern=p, subject=text, flag=flag, xsd_version=ver)
         bag.add('pairs')
         if adm and any(len(a['parts']) > 1 for a in adm):
@@ -872,7 +888,7 @@ def fns_worker(job):
 
 FNS_CONFIGS = {
     'quick': [
-        ('d1', '', dict(PatAtoms={"a", "b", "any", "d", "c_na", "NL"}, PatUnaries={"star", "plus", "opt", "rep2", "grp", "dup"},
+        ('d1', '', dict(PatAtoms={"a", "b", "any", "d", "c_na", "NL", "g_nest"}, PatUnaries={"star", "plus", "opt", "rep2", "grp", "dup"},
                         PatBinaries={"cat", "alt"}, PatDepth=1, SubjChars={1, 4, 7}, MaxLen=3)),
         ('groups', '', dict(PatAtoms={"a", "b"}, PatUnaries={"plus", "grp"}, PatBinaries={"cat", "alt"}, PatDepth=2,
                             SubjChars={1, 7, 8}, MaxLen=3)),
@@ -1341,7 +1357,7 @@ def replay_case(case: dict):
             def m(x):
                 return fn_matches(x, case['pattern'], flag, case.get('parser', '3.1'), ver)
         else:
-            c = compile_pattern(case['pattern'], flag, ver, mode == 'xsd')
+            c = compile_pattern(case['pattern'], flag, ver, 'noanchors' if mode == 'xpath-noanchors' else mode == 'xsd')
             if isinstance(c, tuple):
                 return True, c
             full = (kind == 'class' and mode == 'xpath') or case.get('which') == 'full' and mode == 'xpath'
